@@ -69,7 +69,8 @@ REQUIRED_REACH = ["monotone", "nan_last", "fixed_groups", "subtotal_group", "fal
                   "same_set", "class:rows", "class:cols", "class:strand",
                   "class:kind=opposing_element", "class:kind=opposing_insertion",
                   "class:kind=marginal", "class:kind=label", "class:kind=univariate_measure",
-                  "class:ascending", "class:descending", "class:unresolvable"]
+                  "class:ascending", "class:descending", "class:unresolvable",
+                  "class:infinite_sort_value"]
 BATCH = 25
 UNIT_TIMEOUT_S = 40
 KW2D = sorted(PUBLIC_2D)
@@ -108,15 +109,21 @@ def make_case(unit):
     if g.chance(0.7):
         cases.attach_insertions(g, facets, tr, hide_some=False, n=g.r.randint(2, 4))
     w = g.weights(N, g.pick(["none", "frac", "zeros"]))
+    forced = None
     if "numarr" in template:
         spec = sim.CubeSpec(facets, w, ("mean", "sum"))
     else:
         mset = g.pick([(), ("mean", "stddev"), ("sum",), ("mean", "sum", "stddev")])
-        spec = sim.CubeSpec(facets, w, mset, g.num(N) if mset else None)
+        numvar = g.num(N) if mset else None
+        if "sum" in mset and template == "cat|cat" and g.chance(0.6):
+            w, forced = _cancelling_sums(g, facets, numvar, w)
+        spec = sim.CubeSpec(facets, w, mset, numvar)
     o = sim.Oracle(spec)
     nd = o.ndim
     strand = nd == 1
     axis = "rows" if strand else ["rows", "rows", "cols"][j % 3]
+    if forced:
+        axis = forced["axis"]
     key = "rows_dimension" if axis == "rows" else "columns_dimension"
     d = 0 if strand else (nd - 2 if axis == "rows" else nd - 1)
     od = None if strand else (nd - 1 if axis == "rows" else nd - 2)
@@ -152,6 +159,10 @@ def make_case(unit):
                     order["insertion_id"] = 999
         elif kind == "marginal":
             order["marginal"] = KWM[(j // 15) % len(KWM)] if g.chance(0.95) else "bogus"
+    if forced:
+        # sort by the share of sum whose denominator was made to cancel: +/-inf sort values
+        order = {"type": "opposing_element", "measure": forced["measure"],
+                 "element_id": forced["element_id"]}
     if g.chance(0.5):
         order["direction"] = g.pick(["ascending", "descending"])
     if ids and g.chance(0.5):
@@ -180,7 +191,44 @@ def make_case(unit):
             "axis": axis, "population": g.pick([1000, 35000]), "mask_size": 0}
 
 
+def _cancelling_sums(g, facets, numvar, w):
+    """Signed values that cancel within one row (or column): its total is exactly zero while
+    its cells are not, so its shares of the sum are +/-inf - legitimate, orderable sort values
+    (only NaN goes last)."""
+    (_, rv), (_, cv) = facets[0], facets[1]
+    a, b = (rv, cv) if g.chance(0.5) else (cv, rv)
+    for k in g.r.sample(range(len(a.cats)), len(a.cats)):
+        if a.cats[k].get("missing"):
+            continue
+        members = [i for i in range(a.n) if a.ans[i] == k and not b.cats[b.ans[i]].get("missing")]
+        by_opp = {}
+        for i in members:
+            by_opp.setdefault(int(b.ans[i]), []).append(i)
+        if len(by_opp) < 2:
+            continue
+        (c1, m1), (c2, m2) = sorted(by_opp.items())[:2]
+        v = g.pick([2.5, 5.0, 10.0])
+        for i in members:
+            numvar.x[i] = 0.0
+        numvar.x[m1[0]], numvar.x[m2[0]] = v, -v
+        if w is not None:
+            w = np.array(w, dtype=float)
+            w[m1[0]] = w[m2[0]] = 1.0
+        forced = {"axis": "rows" if a is rv else "cols",
+                  "measure": "row_share_sum" if a is rv else "col_share_sum",
+                  "element_id": b.cats[g.pick([c1, c2])]["id"]}
+        return w, forced
+    return w, None
+
+
 # --------------------------------------------------------------------------------- checking
+
+
+def _as_float(x):
+    try:
+        return float(x)
+    except (TypeError, ValueError):
+        return None
 
 
 def _is_nan(x):
@@ -379,6 +427,8 @@ def _one(res, case, L, t, partT, partB, strand, axis, key, oname, tdim, order, d
                   "structure/fixed_bottom", {"order": gorder, "bottom": bottom})
     body = [e for e in base_in if e not in top and e not in bottom]
     bvals = [ev[e] for e in body]
+    if any(isinstance(v, float) and math.isinf(v) for v in map(_as_float, bvals)):
+        res.classes.append("infinite_sort_value")
     _monotone(res, bvals, body, descending, "monotone", "body", payload_positions=body,
               order=order)
     finite = [v for v in bvals if not _is_nan(v)]
